@@ -5,7 +5,6 @@ package zzverif
 // Date / Expires / Last-Modified values are literal strings in the history.
 
 import (
-	"fmt"
 	"math/rand"
 	"net/http"
 	"strconv"
@@ -46,19 +45,19 @@ func (g *G) lifetime() int64 { return pick(g, int64(0), 1, 2, 5, 10, 60, 100, 36
 func ccJoin(ds []string) string { return strings.Join(ds, ", ") }
 
 type storedSpec struct {
-	status                  int
-	maxAge                  string // "" absent
-	expiresOff              string // "", "invalid", or seconds offset from Date as string
-	lmOff                   string // "", or seconds before Date (may be negative = after)
-	age                     string
-	etag                    bool
-	flags                   []string // other directives
-	swr, sie                string
-	dateSkew                int64 // Date = now + skew
-	noDate                  bool
-	delayNs                 int64
-	extra                   Hdr
-	vary                    string
+	status     int
+	maxAge     string // "" absent
+	expiresOff string // "", "invalid", or seconds offset from Date as string
+	lmOff      string // "", or seconds before Date (may be negative = after)
+	age        string
+	etag       bool
+	flags      []string // other directives
+	swr, sie   string
+	dateSkew   int64 // Date = now + skew
+	noDate     bool
+	delayNs    int64
+	extra      Hdr
+	vary       string
 }
 
 func (g *G) genStored(focus string) storedSpec {
@@ -293,10 +292,4 @@ func (g *G) genGrid(id string) *History {
 		cur += max(fg.DelayNs, bg.DelayNs)
 	}
 	return h
-}
-
-func (g *G) next() *History {
-	g.n++
-	id := fmt.Sprintf("%s-%d", g.prop, g.n)
-	return g.genGrid(id)
 }
